@@ -29,6 +29,8 @@ pub struct GenCfg {
     /// comments between the items of uninterpreted IF_DATA payloads (they are not content and are
     /// not written back, so only checks whose oracle skips them switch this on)
     pub ifdata_comments: bool,
+    /// with shuffled positions: keep the RESERVED items ascending among themselves in every document
+    pub reserved_ascending: bool,
     /// fixed version, or random among the six
     pub version: Option<Ver>,
     /// number of modules
@@ -49,6 +51,7 @@ impl Default for GenCfg {
             shuffle: true,
             canonical_positions: false,
             ifdata_comments: false,
+            reserved_ascending: false,
             version: None,
             max_modules: 2,
         }
@@ -307,7 +310,7 @@ impl<'a> DocGen<'a> {
             rng.shuffle(&mut kids);
         }
         if tag == "RECORD_LAYOUT" {
-            fix_record_layout_positions(g, rng, &mut kids, self.cfg.canonical_positions);
+            fix_record_layout_positions(g, rng, &mut kids, self.cfg.canonical_positions, self.cfg.reserved_ascending);
         }
         for k in kids {
             if self.cfg.comments_pct > 0 && rng.chance(self.cfg.comments_pct, 100) {
@@ -346,7 +349,7 @@ impl<'a> DocGen<'a> {
 
 /// position parameters: unique per RECORD_LAYOUT, so that the documented reordering is
 /// deterministic; in canonical mode the restricted children appear in ascending order
-pub fn fix_record_layout_positions(g: &Grammar, rng: &mut Rng, kids: &mut [Elem], canonical: bool) {
+pub fn fix_record_layout_positions(g: &Grammar, rng: &mut Rng, kids: &mut [Elem], canonical: bool, reserved_ascending: bool) {
     let idxs: Vec<usize> = kids
         .iter()
         .enumerate()
@@ -360,7 +363,7 @@ pub fn fix_record_layout_positions(g: &Grammar, rng: &mut Rng, kids: &mut [Elem]
         // order the reloaded RESERVED list is permuted (known finding of C01, which ends the
         // judgement of that document), so most documents keep the RESERVED items ascending among
         // themselves while the other restricted elements stay shuffled.
-        if rng.chance(6, 7) {
+        if reserved_ascending || rng.chance(6, 7) {
             let slots: Vec<usize> = idxs
                 .iter()
                 .enumerate()
